@@ -1,12 +1,12 @@
 SPECIFICATION Spec
 CONSTANTS
-  MaxLen = 6
-  MaxClock = 2
-  Rings <- MCRings
-  MaxB = 2
+  MaxLen = 5
+  MaxClock = 3
+  Rings = {3, 5, 8}
+  MaxB = 1
   MaxJ = 1
   Strict = TRUE
-  JumboInside = TRUE
+  JumboInside = FALSE
   ExportUnspecLen = 4
   Variant = "code"
 INVARIANTS Refinement IdempotentInv RunAgrees Tight AfterSort Lemmas RegionAgree RingInv
